@@ -67,9 +67,8 @@ theorem foldlM_sets_exist (new : List IpSet) (sets sets' : List IpSet) (h : new.
 theorem tplRules_refs (cm : String) (s d : SetName) (tcp udp : List Nat) :
     ∀ r ∈ tplRules cm s d tcp udp, ∀ n ∈ r.setRefs, n = s ∨ n = d := by
   intro r hr n hn
-  simp only [tplRules, List.mem_append] at hr
-  rcases hr with (hr | hr) | hr <;> split at hr <;> simp at hr <;> subst hr <;>
-    simp [PRule.setRefs] at hn <;> rcases hn with rfl | rfl <;> simp
+  rcases tplRulesWith_mem _ cm s d tcp udp r hr with ⟨_, hm⟩ | ⟨_, p, ps, hm, _⟩ <;>
+    (simp [PRule.setRefs, hm] at hn; rcases hn with rfl | rfl <;> simp)
 
 theorem ruleSetNames_compiled (c : Cluster) (kIp kNet : SetKind) (h : String) (j : Nat) (r : Rule) :
     ∀ n ∈ ruleSetNames kIp kNet h j r, ∃ s ∈ ruleSets c kIp kNet h j r, s.name = n := by
